@@ -79,7 +79,10 @@ def cases(tier, seed):
                            "split": kind == "tuple2" and j % 2 == 0,
                            "keyrot": j % 3,
                            # the cases handed over as a one-shot iterator
-                           "oneshot": j % 4 == 1}
+                           "oneshot": j % 4 == 1,
+                           # the last argument is keyword-only (with a
+                           # default); argument names are inferred
+                           "kwonly": j % 4 == 3}
                     if t == 0 and len(names) >= 2 and u != "tupval":
                         # (tuples cannot be coordinate labels of a Dataset)
                         # the same request through a long-lived Runner that
@@ -94,8 +97,11 @@ def cases(tier, seed):
     # rejected overlaps
     for u in unis:
         for kind in ("num", "dataset"):
-            for api in ("combo", "case", "to_ds"):
-                if u == "tupval" and api == "to_ds":
+            for api in ("combo", "case", "to_ds", "runner", "harvester",
+                        "sow_combos", "sow_cases"):
+                if u == "tupval" and api in ("to_ds", "runner", "harvester"):
+                    continue
+                if api in ("runner", "harvester") and kind == "dataset":
                     continue
                 for sh in (False, True):
                     yield {"uni": u, "overlap": True, "kind": kind, "api": api,
@@ -119,7 +125,11 @@ def check_case(case):
     sub = SUBGRIDS[case["subgrid"]]
     gnames = [a for a, _ in sub]
     gvals = [v for _, v in sub]
-    f = xfn.make_fn(names + gnames, kind=kind, name="f02")
+    kwonly = bool(case.get("kwonly")) and not sub and len(names) >= 2 \
+        and case["api"] == "case"
+    f = xfn.make_fn(names + gnames, kind=kind, name="f02",
+                    kwonly=(names[-1],) if kwonly else (),
+                    defaults={names[-1]: vals[-1][0]} if kwonly else None)
     vio = []
 
     def key(sym):
@@ -183,6 +193,8 @@ def check_case(case):
                     # a single argument: bare values and a bare name
                     tcases = [c[0] for c in chosen]
                     fa = names[0] if case["keyrot"] == 2 else names
+                if kwonly:
+                    fa = None
                 got = xyz.case_runner(
                     f, fa, iter(tcases) if case.get("oneshot") else tcases,
                     combos=combos, **kw)
@@ -294,11 +306,33 @@ def check_overlap(case, names, vals, chosen):
                 xyz.case_runner(f, names, [tuple(c) for c in chosen],
                                 combos=over, verbosity=0,
                                 shuffle=case["shuffle"])
-            else:
+            elif case["api"] == "to_ds":
                 xyz.combo_runner_to_ds(
                     f, over, cases=dcases, verbosity=0,
                     var_names=None if kind == "dataset" else "out",
                     shuffle=case["shuffle"])
+            elif case["api"] in ("runner", "harvester"):
+                r = xyz.Runner(f, var_names="out")
+                if case["api"] == "harvester":
+                    xyz.Harvester(r).harvest_cases(
+                        [tuple(c) for c in chosen], combos=over, verbosity=0,
+                        shuffle=case["shuffle"])
+                else:
+                    r.run_cases(dcases, combos=over, verbosity=0,
+                                shuffle=case["shuffle"])
+            else:
+                crop = xyz.Crop(fn=f, name="ov", batchsize=2,
+                                parent_dir=core.fresh_dir("c02ov"))
+                if case["api"] == "sow_combos":
+                    crop.sow_combos(over, cases=dcases, verbosity=0,
+                                    shuffle=case["shuffle"])
+                else:
+                    crop.sow_cases(names, [tuple(c) for c in chosen],
+                                   combos=over, verbosity=0)
+                if crop.is_prepared() and crop.num_sown_batches:
+                    vio.append((key + "|sown", "batches were written for a "
+                                "request with an argument in both the cases "
+                                "and the grid"))
             vio.append((key + "|accepted", "an argument in both the cases "
                         "and the grid was accepted"))
         except Exception:
